@@ -32,3 +32,4 @@ pub mod c09;
 pub mod c08;
 pub mod c40;
 pub mod c41;
+pub mod c48;
